@@ -73,16 +73,20 @@ fn gen_dur(r: &mut Rng) -> BigCase {
     let kind = *r.pick(&Kind::ALL);
     let side = r.below(3) as i8 - 1;
     let target = (B32 as i64 + side as i64) as u64; // 2^32-1, 2^32, 2^32+1
-    let which = r.below(3); // 0 media (mdhd), 1 track (tkhd via ratio), 2 movie with two tracks
+    // 0 media (mdhd), 1 track (tkhd via ratio), 2 movie with two tracks, 3 extreme timescales
+    // (the conversion product media x movie_timescale itself reaches 2^64),
+    // 4 two long tracks whose order by raw ticks differs from their order by time
+    let which = r.below(5);
     let (tm, tt) = match which {
         0 => (1000u32, *r.pick(&[1000u32, 90000, 1])),
         1 => (*r.pick(&[2000u32, 90000, 1 << 31]), *r.pick(&[1000u32, 1])),
+        3 => (*r.pick(&[u32::MAX, 4_000_000_000, 1 << 31, 3_000_000_000]), *r.pick(&[u32::MAX, 4_000_000_000, 1 << 31, 1_000_000_007])),
         _ => (*r.pick(&[1000u32, 3000]), 1000u32),
     };
     let mut ops = vec![Op::AddTrack(basic_track(kind, tt))];
     // media duration target (in track ticks) so that the chosen header crosses the limit
     let media_target: u64 = match which {
-        0 => target,
+        0 | 3 => target + if which == 3 { r.below(1 << 33) } else { 0 },
         _ => {
             // track/movie ticks = media * tm / tt  ->  media = ceil(target * tt / tm)
             let m = (target as u128 * tt as u128 + tm as u128 - 1) / tm as u128;
@@ -108,8 +112,31 @@ fn gen_dur(r: &mut Rng) -> BigCase {
         ops.insert(1, Op::AddTrack(basic_track(Kind::Aac, 48000)));
         ops.push(Op::Write { track_id: 2, s: SampleW { payload: Payload::Stamp { len: 9, tag }, duration: 1024, offset: 0, sync: true, start_time: 0 } });
     }
+    if which == 4 {
+        // second track: finer timescale, MORE raw ticks than the first, but shorter in time,
+        // so that its own track header still fits 32 bits
+        let fine = *r.pick(&[48_000u32, 90_000, 44_100]);
+        ops.insert(if r.chance(1, 2) { 1 } else { 0 }, Op::AddTrack(basic_track(Kind::Aac, fine)));
+        let first_is_fine = matches!(&ops[0], Op::AddTrack(t) if t.timescale == fine);
+        let fine_id = if first_is_fine { 1 } else { 2 };
+        if first_is_fine {
+            for op in ops.iter_mut() {
+                if let Op::Write { track_id, .. } = op {
+                    *track_id = 2;
+                }
+            }
+        }
+        // raw ticks: a bit more than the coarse track's, i.e. > 2^32, in time: ticks/fine seconds
+        let mut left2 = media_target + 1 + r.below(1 << 31);
+        while left2 > 0 {
+            let d = left2.min(u32::MAX as u64);
+            left2 -= d;
+            tag += 1;
+            ops.push(Op::Write { track_id: fine_id, s: SampleW { payload: Payload::Stamp { len: 5, tag }, duration: d as u32, offset: 0, sync: true, start_time: 0 } });
+        }
+    }
     ops.push(Op::End);
-    let mut sc = MuxScenario { cfg: plain_cfg(tm), ops, start_pos: 0, io: IoKnobs::plain() };
+    let mut sc = MuxScenario { cfg: plain_cfg(tm), ops, start_pos: 0, io: IoKnobs::plain(), preexisting: 0 };
     fit_durations(&mut sc);
     BigCase { family: "dur".into(), side, sc }
 }
@@ -154,7 +181,7 @@ fn gen_payload(r: &mut Rng, kind: Kind, offset_boundary: bool, side: i8) -> BigC
     }
     ops.push(Op::Write { track_id: 1 + (i as u32 % ntracks), s: fill(0x7E, tail, 1000) });
     ops.push(Op::End);
-    let sc = MuxScenario { cfg: plain_cfg(1000), ops, start_pos: 0, io: IoKnobs::plain() };
+    let sc = MuxScenario { cfg: plain_cfg(1000), ops, start_pos: 0, io: IoKnobs::plain(), preexisting: 0 };
     BigCase { family: if offset_boundary { "payload_offset".into() } else { "payload_mdat".into() }, side, sc }
 }
 
@@ -205,7 +232,7 @@ impl Prop for C13 {
             return out;
         }
         let model = Model::build(prop, sc, &outp.run, &mut out);
-        let end = outp.sim.borrow().disk.len();
+        let end = modea::output_end(&outp);
         st.max("largest_output_bytes", end);
         // ---- independent parser on the header bytes
         let parsed = {
